@@ -23,19 +23,21 @@ open PyYetiVerif.Freq
 section full
 variable {α : Type} [Field α]
 
-/-- **`fsolve_full_solves`** -/
-theorem fsolve_full_solves (n : Nat) (i w : α) (M Brb B K : Nat → Nat → α) (F : Nat → α)
+/-- row by row: a row satisfies the full-size equation as soon as *its own* block equation holds (the
+elastic and residual-flexibility block equations are given; the rigid-body one is asked for the row
+at hand only — at `Ω = 0` it does not hold, and the rows outside the rigid-body set do not need it) -/
+theorem fsolve_full_rows (n : Nat) (i w : α) (M Brb B K : Nat → Nat → α) (F : Nat → α)
     (rb el rf : List Nat) (hperm : (rb ++ el ++ rf).Perm (List.range n))
     (vrb vel vrf : List (Dva α))
     (hlrb : rb.length = vrb.length) (hlel : el.length = vel.length) (hlrf : rf.length = vrf.length)
-    (hrb : ∀ r ∈ rb, blockSum (fun r c => i * Brb r c * w - M r c * (w * w)) rb (vrb.map (·.d)) r = F r)
     (hel : ∀ r ∈ el, blockSum (fun r c => i * B r c * w + K r c - M r c * (w * w)) el
       (vel.map (·.d)) r = F r)
     (hrf : ∀ r ∈ rf, blockSum K rf (vrf.map (·.d)) r = F r) :
     ∀ r, r < n →
+      (r ∈ rb → blockSum (fun r c => i * Brb r c * w - M r c * (w * w)) rb (vrb.map (·.d)) r = F r) →
       ((List.range n).map fun c =>
         partStiff i w M Brb B K rb el rf r c * (rowOf (assemble n rf vrf rb vrb el vel) c).d).sum = F r := by
-  intro r hr
+  intro r hr hrb
   obtain ⟨_, _, hgrb, hgel, hgrf⟩ := scatter_covers n rb el rf hperm vrb vel vrf hlrb hlel hlrf
   set sol := assemble n rf vrf rb vrb el vel with hsol
   have hnd : (rb ++ el ++ rf).Nodup := hperm.nodup_iff.2 List.nodup_range
@@ -81,7 +83,7 @@ theorem fsolve_full_solves (n : Nat) (i w : α) (M Brb B K : Nat → Nat → α)
         have : c ∉ rb := fun h => hd2 c h hc
         simp [partStiff, hrrb, this, hd1 r hrrb, hd2 r hrrb]
       rw [e1, e2, e3, hblock rb vrb hlrb hgrb (fun r c => i * Brb r c * w - M r c * (w * w)) _ (fun _ => rfl),
-        hrb r hrrb]; ring
+        hrb hrrb]; ring
     · -- an elastic row
       have hnrb : r ∉ rb := fun h => hd1 r h hrel
       have e1 : (rb.map fun c => partStiff i w M Brb B K rb el rf r c * (rowOf sol c).d).sum = 0 := by
@@ -117,6 +119,21 @@ theorem fsolve_full_solves (n : Nat) (i w : α) (M Brb B K : Nat → Nat → α)
       intro c hc
       simp [partStiff, hnrb, hnel, hrrf, hc]
     rw [e1, e2, e3, hblock rf vrf hlrf hgrf K _ (fun _ => rfl), hrf r hrrf]; ring
+
+/-- **`fsolve_full_solves`** -/
+theorem fsolve_full_solves (n : Nat) (i w : α) (M Brb B K : Nat → Nat → α) (F : Nat → α)
+    (rb el rf : List Nat) (hperm : (rb ++ el ++ rf).Perm (List.range n))
+    (vrb vel vrf : List (Dva α))
+    (hlrb : rb.length = vrb.length) (hlel : el.length = vel.length) (hlrf : rf.length = vrf.length)
+    (hrb : ∀ r ∈ rb, blockSum (fun r c => i * Brb r c * w - M r c * (w * w)) rb (vrb.map (·.d)) r = F r)
+    (hel : ∀ r ∈ el, blockSum (fun r c => i * B r c * w + K r c - M r c * (w * w)) el
+      (vel.map (·.d)) r = F r)
+    (hrf : ∀ r ∈ rf, blockSum K rf (vrf.map (·.d)) r = F r) :
+    ∀ r, r < n →
+      ((List.range n).map fun c =>
+        partStiff i w M Brb B K rb el rf r c * (rowOf (assemble n rf vrf rb vrb el vel) c).d).sum = F r :=
+  fun r hr => fsolve_full_rows n i w M Brb B K F rb el rf hperm vrb vel vrf hlrb hlel hlrf hel hrf r hr
+    (fun h => hrb r h)
 
 /-- on every row `v = iΩ d`, `a = −Ω² d` carries over from the blocks to the assembled column -/
 theorem fsolve_full_va (n : Nat) (i w : α) (rb el rf : List Nat)
